@@ -437,6 +437,8 @@ def run(ctx):
 
     run_stream_wsgi(ctx, wd)
     c06_asgi.run_asgi(ctx, wd)
+    from . import c06_sse_task
+    c06_sse_task.run_task_level(ctx, wd)
 
 
 if __name__ == "__main__":
